@@ -467,6 +467,16 @@ func c06Levels(tier string) []core.Level {
 			for k := 0; k < 3; k++ {
 				emit(core.Case{Fam: "afternested", N: []int{k}})
 			}
+			// many if / elseif tags in one template: 1..130 chains of 1..4 conditions, one chain of up to 150 conditions
+			for n := 1; n <= 130; n++ {
+				for k := 1; k <= 4; k++ {
+					emit(core.Case{Fam: "manyelseif", N: []int{n, k, n % 2}})
+				}
+			}
+			for k := 5; k <= 150; k += 5 {
+				emit(core.Case{Fam: "manyelseif", N: []int{1, k, 0}})
+				emit(core.Case{Fam: "manyelseif", N: []int{2, k, 1}})
+			}
 			for fi := range c02FilterNames() {
 				for car := 0; car < 5; car++ {
 					emit(core.Case{Fam: "hostseq", N: []int{fi, car}})
@@ -645,6 +655,34 @@ func c06HostSeq(fi, carrier int) core.Result {
 
 func c06Run(c core.Case) core.Result {
 	switch c.Fam {
+	case "manyelseif":
+		// templates with many if / elseif tags in total: n chains of k conditions each in sequence (or inside loops),
+		// every chain taking its last elseif branch or its else branch
+		n, k, inLoop := c.N[0], c.N[1], c.N[2] == 1
+		var sb strings.Builder
+		want := ""
+		for i := 0; i < n; i++ {
+			sb.WriteString("{% if f %}x")
+			for j := 1; j < k; j++ {
+				cond := "f"
+				if j == k-1 && i%2 == 0 {
+					cond = "t"
+				}
+				sb.WriteString("{% elseif " + cond + " %}" + itoa(j))
+			}
+			sb.WriteString("{% else %}e{% endif %};")
+			if i%2 == 0 && k > 1 {
+				want += itoa(k-1) + ";"
+			} else {
+				want += "e;"
+			}
+		}
+		src := sb.String()
+		if inLoop {
+			src = "{% for q in [1, 2] %}" + src + "{% endfor %}"
+			want += want
+		}
+		return c06Compare(src, c06Ctx(), want, true)
 	case "afternested":
 		return c06AfterNested(c.N[0])
 	case "hostseq":
